@@ -86,7 +86,7 @@ func (values SortValues) Serialize(buf *bytes.Buffer) {
 		case FloatType:
 			serializeFloat(buf, value.Float64ToStr(val.Float, false))
 		case DatetimeType:
-			serializeDatetimeFromUnixNano(buf, val.Datetime)
+			serializeDatetimeFromUnix(buf, val.DatetimeSec, val.Datetime)
 		case StringType:
 			serializeString(buf, val.String)
 		}
@@ -102,6 +102,9 @@ type SortValue struct {
 	Float    float64
 	Datetime int64
 	String   string
+
+	// DatetimeSec holds the seconds since 1970. Datetime (nanoseconds) wraps around for times before 1678 or after 2262.
+	DatetimeSec int64
 }
 
 func NewSortValue(val value.Primary, flags *option.Flags) *SortValue {
@@ -128,6 +131,7 @@ func NewSortValue(val value.Primary, flags *option.Flags) *SortValue {
 		t := dt.(*value.Datetime).Raw()
 		sortValue.Type = DatetimeType
 		sortValue.Datetime = t.UnixNano()
+		sortValue.DatetimeSec = t.Unix()
 		value.Discard(dt)
 	} else if b := value.ToBoolean(val); !value.IsNull(b) {
 		sortValue.Type = BooleanType
@@ -208,10 +212,14 @@ func (v *SortValue) Less(compareValue *SortValue) ternary.Value {
 	case DatetimeType:
 		switch compareValue.Type {
 		case DatetimeType:
+			if v.DatetimeSec != compareValue.DatetimeSec {
+				return ternary.ConvertFromBool(v.DatetimeSec < compareValue.DatetimeSec)
+			}
 			if v.Datetime == compareValue.Datetime {
 				return ternary.UNKNOWN
 			}
-			return ternary.ConvertFromBool(v.Datetime < compareValue.Datetime)
+			// within one second the difference of the nanoseconds is exact even where they have wrapped around
+			return ternary.ConvertFromBool(v.Datetime-compareValue.Datetime < 0)
 		}
 	case StringType:
 		switch compareValue.Type {
@@ -248,7 +256,7 @@ func (v *SortValue) EquivalentTo(compareValue *SortValue) bool {
 	case DatetimeType:
 		switch compareValue.Type {
 		case DatetimeType:
-			return v.Datetime == compareValue.Datetime
+			return v.DatetimeSec == compareValue.DatetimeSec && v.Datetime == compareValue.Datetime
 		}
 	case BooleanType:
 		switch compareValue.Type {
